@@ -47,6 +47,11 @@ struct C19Ctx {
   void set_op(const char* lit) { op = lit; op_lit = lit; }
 };
 inline C19Ctx& c19ctx() { static C19Ctx c; return c; }
+// coarse, stable origin class of a block for violation keys: allocated while a const call was in flight
+// (lazily built caches) or during a lifecycle operation; the exact operations go into the detail
+inline const char* block_origin(const char* op) {
+  return (strcmp(op, "read-out") == 0 || strcmp(op, "query") == 0) ? "block-cached-by-const-call" : "block-from-lifecycle-operation";
+}
 inline std::string during() { return "|during-" + c19ctx().op; }
 inline void c19_fail(const std::string& what, const std::string& detail) {
   Exempt e;
@@ -123,18 +128,18 @@ inline void arena_deallocate(Arena* a, void* p, size_t n, size_t elem) noexcept 
     if (!owner) {
       bool was_freed = false; size_t old = 0;
       for (Arena* o : all_arenas()) { auto ft = o->freed.find(p); if (ft != o->freed.end()) { was_freed = true; old = ft->second; } }
-      c19_fail((was_freed ? "alloc|double-free" : "alloc|free-of-unknown-block") + during(),
+      c19_fail(was_freed ? "alloc|double-free" : "alloc|free-of-unknown-block",
                "deallocate(" + std::to_string(bytes) + " bytes) on arena " + std::to_string(a->id) +
                (was_freed ? " of a block already released (was " + std::to_string(old) + " bytes)" : " of a block no arena issued"));
       return;   // do not touch the memory
     }
-    c19_fail(std::string("alloc|block-returned-to-wrong-arena|block-allocated-in-") + it->second.op,
+    c19_fail(std::string("alloc|block-returned-to-wrong-arena|") + block_origin(it->second.op),
              "block of " + std::to_string(it->second.bytes) + " bytes issued by arena " + std::to_string(owner->id) +
-             " was deallocated through an allocator of arena " + std::to_string(a->id));
+             " (allocated during '" + it->second.op + "') was deallocated through an allocator of arena " + std::to_string(a->id));
   }
   checked();
   if (it->second.bytes != bytes) {
-    c19_fail(std::string("alloc|deallocate-size-mismatch|block-allocated-in-") + it->second.op,
+    c19_fail(std::string("alloc|deallocate-size-mismatch|") + block_origin(it->second.op),
              "allocated " + std::to_string(it->second.bytes) + " bytes (elem " + std::to_string(it->second.elem) + "), deallocate says " +
              std::to_string(n) + " x " + std::to_string(elem) + " = " + std::to_string(bytes) + " bytes");
   } else if (it->second.elem != elem) {
